@@ -312,5 +312,11 @@ def r5_console_urls(chk: Check) -> None:
             chk.violation("C15.R5", fn, construct, "the base URL is printed verbatim: credentials given as URL userinfo appear on the console although sanitization is on", fn.loc(n))
 
 
+def rfwd_forwarding(chk: Check) -> None:
+    from . import shared
+
+    shared.forwarding_rule(chk, "C15.FWD", ('core/output/sanitization.py:',), "sanitization settings", 2)
+
+
 def rules(tier: str) -> list:  # type: ignore[type-arg]
-    return [r1_writers, r2_curl, r3_plumbing, r4_sanitizer, r5_console_urls]
+    return [r1_writers, r2_curl, r3_plumbing, r4_sanitizer, r5_console_urls, rfwd_forwarding]
